@@ -90,6 +90,24 @@ namespace occa {
       return *(scopedState->operators.back());
     }
 
+    bool expressionState::closedCast(token_t *token) {
+      if (!token || !operatorCount()) {
+        return false;
+      }
+      // Nothing was read after [token]: if it closed a cast,
+      // that cast is the operator on top of the stack
+      if (!(lastOperator().opType() & operatorType::parenCast)) {
+        return false;
+      }
+      const int castCount = (int) castEndTokens.size();
+      for (int i = 0; i < castCount; ++i) {
+        if (castEndTokens[i] == token) {
+          return true;
+        }
+      }
+      return false;
+    }
+
     void expressionState::pushOutput(exprNode *expr) {
       scopedState->output.push_back(expr);
     }
@@ -390,6 +408,7 @@ namespace occa {
                                 op::parenCast,
                                 *(pair.value))
           );
+          state.castEndTokens.push_back(&opToken);
         } else {
           state.pushOutput(
             new parenthesesNode(pair.token,
@@ -408,6 +427,15 @@ namespace occa {
 
     void expressionParser::attachPair(operatorToken &opToken) {
       if ((state.outputCount() < 2)) {
+        transformLastPair(opToken);
+        return;
+      }
+
+      // (int) (a + b), (long) (int) a
+      //       ^                 ^
+      // A pair that follows the closing parenthesis of a cast is
+      // the operand of the cast (or another cast), not a call
+      if (state.closedCast(state.beforePairToken)) {
         transformLastPair(opToken);
         return;
       }
@@ -505,6 +533,13 @@ namespace occa {
 
       opType_t prevOpType = state.prevToken->getOpType();
       if (prevOpType & operatorType::pairStart) {
+        return true;
+      }
+
+      // (long) -a, (int) *p
+      //        ^         ^
+      // An operator right after a cast applies to the operand of the cast
+      if (state.closedCast(state.prevToken)) {
         return true;
       }
 
